@@ -37,11 +37,14 @@ claim('C04',
       'PARTIAL. spherematch is executed symbolically from the candidate loop onwards with the separation of every pair a solver '
       'variable (arbitrary non-negative real matrix D, arbitrary match length L > 0): for every D and L within the size bound the '
       'returned list contains each pair with D < L exactly once and none with D >= L, reports D as the distance, is sorted, and for '
-      'maxmatch = 1, 2 satisfies the greedy characterisation of the statement. The completeness of the spatial hash itself (chunk '
-      'geometry at the RA seam, chunk edges, poles) is NOT claimed: it needs trigonometric inequalities that no SMT theory decides.',
-      'class chunks is replaced by a trivially complete hash and gcirc by 3600*D[i][k]; a defect confined to chunks.__init__/assign/'
-      'getbounds/get is not detected by this check. Bounds: 2x1, 2x2 (+3x2 for maxmatch=1) quick; up to 3x2 and 2x3 thorough; maxmatch 0..2. '
-      'Ties in argsort are taken in stable order.', 'DESIGN.md 4/C04')
+      'maxmatch = 1, 2 satisfies the greedy characterisation of the statement. (2) The real spatial hash (chunks.__init__, rarange, '
+      'assign, getbounds, get) is executed on symbolic right ascensions: a second-list point within the match length of a first-list '
+      'point in Dec and in RA cos Dec - across the 0/360 seam too - is listed in the cell that point is looked up in. The step from '
+      '"great-circle separation < L" to that box is a trigonometric lemma no SMT theory decides and is NOT claimed.',
+      'Match loop: class chunks is replaced by a trivially complete hash and gcirc by 3600*D[i][k]; 2x1, 2x2, 3x1, 2x3 (+3x2 for maxmatch=1) '
+      'quick; up to 3x2 and 2x3 thorough; maxmatch 0..2; ties in argsort in stable order. Hash: first-list declinations concrete (quick: 2 '
+      'points on the equator within 10 deg of the seam, chunk size 120; thorough: 5 configurations incl. a polar one, chunk sizes 30-120), '
+      'one second-list point anywhere, cos of the concrete declination bounds evaluated in IEEE double.', 'DESIGN.md 4/C04 and 9.4')
 claim('C05',
       'PARTIAL. (1) The per-chunk friends-of-friends class `groups` is executed on a symbolic symmetric distance matrix (n <= 5 quick, '
       '6 thorough): for every matrix and linking length the resulting partition equals the connected components of the link graph, '
@@ -128,8 +131,9 @@ claim('C12',
       'caps minus later (near-)duplicates.',
       'arccos is a strictly decreasing function symbol (value per application + pairwise monotonicity instances), degrees/radians positive '
       'scalings, sin/cos opaque values with s^2+c^2=1 (reference uses the same conversion); |x.p| <= 1 supplied as a lemma. NOT covered: the '
-      'three storage formats (Mangle text / FITS table / window_read assembly: astropy I/O) and IEEE rounding of x.p at a cap centre (exact '
-      'reals cannot see arccos(1+eps) = NaN). Bounds: <= 2 caps x 1-2 points (3 caps thorough), <= 3 polygons, index lists over 3 caps up to '
+      'three storage formats (Mangle text / FITS table / window_read assembly: astropy I/O). IEEE rounding of the dot product fed to arccos '
+      '(a cap\'s own centre; NaN) is covered by two binary64 (QF_FP) obligations in which numpy.dot returns an arbitrary double within 2^-50 '
+      'of [-1, 1] and arccos is a function symbol with stated libm facts (validated against this machine\'s numpy on every run). Bounds: <= 2 caps x 1-2 points (3 caps thorough), <= 3 polygons, index lists over 3 caps up to '
       'length 2 (3 thorough).', 'DESIGN.md 4/C12')
 claim('C16',
       'readspec (with spec_append, latest_mjd, number_of_fibers, spec_path) runs against a synthetic survey in which every pixel of every HDU '
@@ -142,16 +146,18 @@ claim('C16',
       'FITS I/O, glob and os.path.exists are stubs; the survey is 2 plates x 2 MJDs x 3 fibres with 4 and 6 pixels; the solver enumerates '
       'request selectors (path feasibility) and decides equality of provenance terms; align=True and znum are not covered.', 'DESIGN.md 4/C16')
 claim('C15',
-      'SMALL PART. Only the HMF update steps are claimed: HMF.astep and HMF.gstep are executed with the spectra matrix symbolic (N<=3, M<=4, '
+      'PART. computechi2 for every full-rank 2-parameter system (normal equations, fitted values, chi-square, degrees of freedom, '
+      'covariance = inverse of A^T W A, variances = its diagonal) and the HMF update steps: HMF.astep and HMF.gstep are executed with the spectra matrix symbolic (N<=3, M<=4, '
       'K<=2 quick; up to 4x6, K=3 thorough) on concrete exact-rational other factor and inverse variances (with zero weights), epsilon in '
       '{None, 0, 1/2}: for EVERY spectra matrix the gradient of chi-square (plus the smoothness penalty with neighbouring columns held) '
       'with respect to the updated factor vanishes, i.e. each update is the exact weighted least-squares optimum given the other factor; '
       'astepnn/gstepnn keep both factors >= 0 for every non-negative spectra matrix; normbase returns r with r^2 = mean(g^2) (unit rms).',
       'NOT claimed (deciding computation is LAPACK/C behind FFI, no encoding within reach; with concrete matrices the claim would degenerate '
-      'to a unit test): computechi2 (numpy.linalg.svd), pcomp and HMF.reorder (eigh), pca_solve, k-means seeding / seed determinism, '
-      '"caller\'s arrays not modified". numpy.linalg.solve is an exact-rational contract stub.', 'DESIGN.md 4/C15')
+      'to a unit test): computechi2 beyond 2 parameters or rank-deficient, pcomp and HMF.reorder (eigh), pca_solve, k-means seeding / seed determinism, '
+      '"caller\'s arrays not modified". numpy.linalg.solve is an exact-rational contract stub; numpy.linalg.svd is a contract stub that '
+      'hands out the decomposition named by the harness only after verifying U diag(w) Vh = input, orthonormality, sign and order.', 'DESIGN.md 4/C15 and 9.2')
 claim('C11',
-      'PARTIAL. combine1fiber (1-D), aesthetics, djs_maskinterp, smooth and the shift arithmetic of preprocess_spectra are executed with the '
+      'PARTIAL. combine1fiber (1-D, and stacks of two exposures with different coverage: zero pattern of the inverse variance), aesthetics, djs_maskinterp, smooth and the shift arithmetic of preprocess_spectra are executed with the '
       'spline fit replaced by an ARBITRARY fit outcome (fresh symbolic flux per evaluated pixel, symbolic evaluation mask, symbolic '
       'rejection mask), symbolic flux and symbolic non-negative inverse variance with a symbolic zero pattern, on concrete input/output grids '
       '(same, shifted, wider, narrower, coarser): for every such outcome the outputs have the grid\'s length, ivar >= 0, ivar == 0 for every '
@@ -160,8 +166,8 @@ claim('C11',
       'no-good-pixel case returns zeros, scaling the input ivar scales the output ivar, and preprocess_spectra hands each object\'s own row '
       'to the resampler on the grid L - log10(1+z).',
       'The spline fit itself is not part of this check (covered by C08-C10); "finite" cannot be expressed in exact reals; identity/constant-'
-      'spectrum accuracy is a statement about the fit; stacked 2-D exposures need >= 101 pixels per exposure and are outside any explorable '
-      'bound. An output pixel that coincides with a good input pixel counts as lying between (same-grid resampling is the identity). The '
+      'spectrum accuracy is a statement about the fit; for stacks the variance smoothing (running median over 101 pixels) is an arbitrary '
+      'positive value per pixel and the fit accepts everything. An output pixel that coincides with a good input pixel counts as lying between (same-grid resampling is the identity). The '
       'scaling law is shown for weights >= 1 and factors >= 1e-3 (the code treats |ivar| < float32 eps as no weight).', 'DESIGN.md 4/C11')
 claim('C02',
       'The real yanny parser (__init__, _parse, get_token, trailing_comment, type/isarray/isenum/array_length/char_length/dtype/convert) is '
